@@ -7,6 +7,7 @@ import (
 	"bytes"
 	"errors"
 	"fmt"
+	"sort"
 	"strconv"
 	"strings"
 
@@ -339,6 +340,12 @@ var awkCreate = []string{
 	`{"a":{"b":{"c":1,"d":2}},"e":{},"f":"\u003c&>"}`, `{"a":{"b":{}},"e":[{}],"f":null}`, `{"a":1,"a":2,"b":{"x":1,"x":2}}`, `{"a":2,"b":{"x":2}}`,
 	"{\"\xff\":\"\xfe\",\"s\":\"\\ud800\"}", "{\"\\ufffd\":\"\\ufffd\",\"s\":\"\\ufffd\"}", `{"a":true,"b":false,"c":"true"}`, `{"a":false,"b":false,"c":true}`,
 	`{"a":[],"b":[[]],"c":[{}],"d":[null]}`, `{"a":[null],"b":[[]],"c":[{"x":null}],"d":[]}`,
+	// float64: an overflowing literal in a member shadowed by a later duplicate, in an array element, in a text that is
+	// rejected anyway; zeros of both signs; spellings of one float64
+	`{"a":1e400,"a":1}`, `{"a":1}`, `{"a":1.0,"b":[0,-0,{"c":0.0}]}`, `{"a":1,"b":[-0,0,{"c":-0.0}]}`, `{"a":1e0,"b":[0,0,{"c":0}]}`,
+	`[{"a":1},{"b":[[{"c":-1e999}]]}]`, `[{"a":1.0},{"b":[[{"c":1}]]}]`, `[{"a":1},null]`, `[null,{"a":1e309}]`, `1e400`, `[1e400]`, `{"a":{"b":{"c":0.1}}}`,
+	`{"a":{"b":{"c":1e-1}}}`, `{"a":{"b":{"c":0.10000000000000002}}}`, `{"a":-0}`, `{"a":0}`, `{"a":0.0}`, `{"a":-0.0}`, `{"a":{"b":-0}}`, `{"a":{"b":0}}`,
+	`{"a":[1,2.5,1e21]}`, `{"a":[1.0,25e-1,1000000000000000000000]}`, `{"a":[1,2.5,1e21,0]}`, `{"a":1e400,"b":`, `{"a":1e400}x`,
 }
 
 func lobs(outb []byte, err error) string { return obsOf(outb, err) }
@@ -521,6 +528,9 @@ func streamLegacy(stream string, r *rng, n int, pfx string) {
 			if r.chance(1, 4) {
 				b = shuffleMembers(r, b)
 			}
+			if r.chance(3, 5) { // float64 numbers: respelled, -0, last-ulp neighbours, overflow
+				floatNumbers(r, a, b)
+			}
 			ta, tb := spell{r.n(3), r}.text(a), spell{r.n(3), r}.text(b)
 			if r.chance(1, 6) {
 				ta, tb = []byte(r.pick(awkCreate)), []byte(r.pick(awkCreate))
@@ -610,6 +620,122 @@ func streamLegacy(stream string, r *rng, n int, pfx string) {
 				}
 				emitLApply(id, r.chance(1, 2), 0, doc, patch, nil)
 			}
+		}
+	}
+}
+
+// number literals that decode to the same float64, class by class (first: as Go prints it)
+var floatClasses = [][]string{
+	{"0.1", "1e-1", "0.10", "0.1000000000000000055511151231257827", "1E-1"},
+	{"2.5", "25e-1", "2.50", "0.25e1"},
+	{"1", "1.0", "1e0", "10e-1", "1.000", "0.1E+1"},
+	{"100", "1e2", "1E+2", "100.0", "1.0e2", "1e+02"},
+	{"1.2", "12e-1", "1.20", "1.2000000000000000001"},
+	{"0", "0.0", "0e5", "0E-3", "0e99999", "1e-400", "1e-99999", "0.0e10000000000"},
+	{"-0", "-0.0", "-0e0", "-1e-400", "-0.000"},
+	{"1e+21", "1e21", "1000000000000000000000", "1E21", "1.0e21"},
+	{"100000000000000000000", "1e20", "1E+20"},
+	{"1e-7", "0.0000001", "1E-7", "1e-07", "10e-8"},
+	{"0.000001", "1e-6", "1E-06"},
+	{"1.2345678901234568e+29", "123456789012345678901234567890", "1.2345678901234568e29", "123456789012345680000000000000"},
+	{"9007199254740992", "9007199254740993", "9007199254740992.0", "9.007199254740992e15"},
+	{"9007199254740994", "9007199254740994.0"},
+	{"9007199254740996", "9007199254740995", "9007199254740997"},
+	{"5e-324", "4.9406564584124654e-324", "3e-324", "4.9e-324"},
+	{"1e-323", "9.8813129168249309e-324"},
+	{"1.7976931348623157e+308", "17976931348623157e292", "1.7976931348623158e308", "1.7976931348623157e308"},
+	{"0.30000000000000004", "0.3000000000000000444"},
+	{"0.3", "0.29999999999999999", "3e-1"},
+	{"-2.5", "-25e-1", "-2.50"},
+	{"1.0000000000000002", "1.00000000000000022"},
+	{"0.10000000000000002", "0.100000000000000019"},
+	{"2.5000000000000004", "2.50000000000000044"},
+	{"1.0000000000000001e+21", "1.0000000000000001e21", "1000000000000000131072"},
+	{"12345678", "12345678.0", "1.2345678e7"},
+	{"-1e-7", "-0.0000001"},
+	{"123.456", "123456e-3", "1.23456e2"},
+}
+
+// pairs of classes one ulp apart
+var floatUlp = [][2]int{{0, 22}, {2, 21}, {1, 23}, {7, 24}, {12, 13}, {13, 14}, {15, 16}, {18, 19}, {5, 15}, {5, 6}}
+
+// literals that overflow float64 (Unmarshal error)
+var floatOver = []string{"1e400", "-1e999", "1.8e308", "1e309", "-1.7976931348623159e308", "1e10000000000", "2E+308", "17976931348623159e292"}
+
+func numNodes(v *jv) map[string]*jv {
+	var locs []loc
+	locations(v, "", &locs)
+	out := map[string]*jv{}
+	for _, l := range locs {
+		if l.v.kind == kNum {
+			out[l.ptr] = l.v
+		}
+	}
+	return out
+}
+
+func sortedPaths(m map[string]*jv) []string {
+	var ks []string
+	for k := range m {
+		ks = append(ks, k)
+	}
+	sort.Strings(ks)
+	return ks
+}
+
+// replace number literals of a and b by float64 literals: the same place of the two documents gets the same
+// literal, two spellings of the same float64, two neighbours, or two unrelated ones; now and then an
+// overflowing literal somewhere (at any depth)
+func floatNumbers(r *rng, a, b *jv) {
+	na, nb := numNodes(a), numNodes(b)
+	canonOnly := r.chance(1, 2) // inside C19's domain: only the spelling Go prints
+	pickLit := func(ci int) string {
+		if canonOnly {
+			return floatClasses[ci][0]
+		}
+		return r.pick(floatClasses[ci])
+	}
+	for _, p := range sortedPaths(na) {
+		x := na[p]
+		if r.chance(1, 4) {
+			continue
+		}
+		ci := r.n(len(floatClasses))
+		x.lit = pickLit(ci)
+		y, ok := nb[p]
+		if !ok {
+			continue
+		}
+		switch r.n(6) {
+		case 0:
+			y.lit = x.lit
+		case 1, 2:
+			y.lit = pickLit(ci)
+		case 3:
+			u := floatUlp[r.n(len(floatUlp))]
+			if r.chance(1, 2) {
+				u[0], u[1] = u[1], u[0]
+			}
+			x.lit, y.lit = pickLit(u[0]), pickLit(u[1])
+		case 4:
+			// zero against zero, signs mixed
+			x.lit, y.lit = pickLit(5+r.n(2)), pickLit(5+r.n(2))
+		default:
+			y.lit = pickLit(r.n(len(floatClasses)))
+		}
+	}
+	for _, p := range sortedPaths(nb) {
+		if _, ok := na[p]; !ok && r.chance(2, 3) {
+			nb[p].lit = pickLit(r.n(len(floatClasses)))
+		}
+	}
+	if r.chance(1, 12) {
+		m := na
+		if r.chance(1, 2) {
+			m = nb
+		}
+		if ps := sortedPaths(m); len(ps) > 0 {
+			m[ps[r.n(len(ps))]].lit = r.pick(floatOver)
 		}
 	}
 }
